@@ -63,10 +63,17 @@ func c16ListExec(c *core.Ctx, in c16List) {
 	var enc []byte
 	back := nasConvert.NewProtocolConfigurationOptions()
 	var err error
+	shared := false
 	pi := core.Try(func() {
-		enc = pco.Marshal()
+		var ok bool
+		enc, ok = scribbleRecall(func() []byte { return pco.Marshal() })
+		shared = !ok
 		err = back.UnMarshal(append([]byte{}, enc...))
 	})
+	if pi == nil && shared {
+		c.FailCase("pco|Marshal|result-shared-between-calls", "Marshal: after the caller overwrote the first result a second call returns different octets", "pco-list", in)
+		return
+	}
 	fail := func(k, w string) { c.FailCase("pco|"+k, w, "pco-list", in) }
 	if pi != nil {
 		fail(pi.Key(), "panics: "+pi.Msg)
@@ -137,7 +144,11 @@ func c16PsiExec(c *core.Ctx, in c16Psi) {
 	var back [16]bool
 	var back2 []byte
 	pi := core.Try(func() {
-		buf = nasConvert.PSIToBuf(arr)
+		var ok bool
+		buf, ok = scribbleRecall(func() []byte { return nasConvert.PSIToBuf(arr) })
+		if !ok {
+			buf = nil
+		}
 		back = nasConvert.PSIToBooleanArray(append([]byte{}, want...))
 		back2 = nasConvert.PSIToBuf(nasConvert.PSIToBooleanArray(append([]byte{}, want...)))
 	})
